@@ -40,9 +40,9 @@ type vxJobFan struct {
 }
 
 type vxFault struct {
-	Component string `json:"component"` // sensor | rpm | pwmread | pwmwrite | modewrite
-	Kind      string `json:"kind"`      // error | garbage | ignored
-	Window    int    `json:"window"`    // control-cycle window index after regulation began
+	Component string `json:"component"`         // sensor | rpm | pwmread | pwmwrite | modewrite
+	Kind      string `json:"kind"`              // error | garbage | ignored
+	Window    int    `json:"window"`            // control-cycle window index after regulation began
 	Persist   bool   `json:"persist,omitempty"` // the fault stays active until the process ends (still active at shutdown)
 }
 
